@@ -788,6 +788,25 @@ def follow_up(ex, d, case, problems, where):
             problems.append('%s follow-up: %s existed and is gone' % (where, p))
         elif n.kind == 'file' and n.payload is not pl and not (isinstance(pl, Raw) and len(pl.data) == 0):
             problems.append('%s follow-up: %s existed and was rewritten' % (where, p))
+    # work already stored is not stored again: a data block the follow-up writes must hold at least one byte range that no
+    # block present before the follow-up already holds (otherwise the resumed run failed to find what was stored)
+    pre_segs = []
+    for p, (k, pl) in pre.items():
+        if k == 'file' and p.startswith('d/') and isinstance(pl, Compressed) and isinstance(pl.inner, Data):
+            pre_segs += list(pl.inner.segs)
+    for p, n in st.nodes.items():
+        if p.startswith('d/') and n.kind == 'file' and p not in pre and isinstance(n.payload, Compressed) and isinstance(n.payload.inner, Data):
+            segs = list(n.payload.inner.segs)
+            def covered(seg):
+                c, o, l = seg
+                for (c2, o2, l2) in pre_segs:
+                    if c2 == c:
+                        inside = b_and(b_not(b_lt(o, o2)), b_not(b_lt(o2 + l2, o + l)))
+                        if inside is True or (inside is not False and ex.check_holds(zbool(inside))[0]):
+                            return True
+                return False
+            if segs and all(covered(sg) for sg in segs):
+                problems.append('%s follow-up: wrote block %s although every byte of it was already stored in blocks left by the earlier runs (work stored again)' % (where, p[-12:]))
     written_again = stats_field(ex, r[1], 'written_blocks')
     d['followup_written_blocks'] = written_again
     unmod = stats_field(ex, r[1], 'unmodified_files')
